@@ -182,6 +182,12 @@ fn main() {
         s.save(&mut healthy).unwrap();
         let r = if case["kind"].as_str() == Some("file") {
             file_cases().err()
+        } else if case["kind"].as_str() == Some("path") {
+            match path_save(cfg) {
+                Err(e) => Some(e),
+                Ok(Err(m)) => Some(m),
+                Ok(Ok(b)) => (b != healthy).then(|| "file written by save(path) differs from the bytes save_to delivers".to_string()),
+            }
         } else {
             run_script(cfg, &healthy, &script_from_json(&case["script"])).err()
         };
@@ -194,7 +200,7 @@ fn main() {
     run.rule(
         "for each (document x xref format x plain|incremental) configuration: every byte offset p of the healthy output as failure \
          point x {persistent hard error, persistent Ok(0), hard error that occurs once and then clears}; every write-call index as a single Interrupted; chunkings of 1..8 bytes per call and the cyclic \
-         pattern 1,2,3; chunking x failure point combinations; non-trivial = failure strictly inside the output or a chunked/interrupted run; \
+         pattern 1,2,3; chunking x failure point combinations; save(path) of every configuration against the save_to bytes; non-trivial = failure strictly inside the output or a chunked/interrupted run; \
          scripts are distinct by construction",
     );
     run.assume("the fault-injecting sink in harness/src/sink.rs models a sink that accepts a prefix and then fails persistently; transient faults are single Interrupted results");
@@ -209,6 +215,27 @@ fn main() {
         if let Err(m) = validate(&healthy, cfg) {
             run.fail(None, json!({"config": cfg.label, "script": script_json(&Script::default())}), &m, "healthy output is valid");
             continue;
+        }
+        // the path-taking entry point writes the same bytes (a BufWriter over a File sits in between)
+        run.eval(1);
+        run.add("path_saves", 1);
+        match path_save(cfg) {
+            Err(e) => {
+                eprintln!("MACHINERY: {}", e);
+                std::process::exit(3);
+            }
+            Ok(Err(m)) => run.fail(None, json!({"kind": "path", "config": cfg.label}), &m, "save(path) returns Ok and the file holds exactly the bytes save_to delivers"),
+            Ok(Ok(bytes)) => {
+                if bytes != healthy {
+                    let at = bytes.iter().zip(&healthy).position(|(a, b)| a != b).unwrap_or(bytes.len().min(healthy.len()));
+                    run.fail(
+                        None,
+                        json!({"kind": "path", "config": cfg.label}),
+                        &format!("file written by save(path) has {} bytes, save_to delivers {}; first difference at offset {}", bytes.len(), healthy.len(), at),
+                        "save(path) returns Ok and the file holds exactly the bytes save_to delivers",
+                    );
+                }
+            }
         }
         // count write calls of a healthy run
         let mut probe = ScriptSink::new(Script::default());
@@ -285,6 +312,23 @@ fn main() {
     }
     run.exhaustive(true);
     run.finish();
+}
+
+/// outer Err = machinery (scratch file); inner Err = the save failed or panicked
+fn path_save(cfg: &Config) -> Result<Result<Vec<u8>, String>, String> {
+    let p = util::scratch_path()?;
+    let mut s = cfg.subject.clone();
+    let r = util::guard(|| match &mut s {
+        Subject::Plain(d) => d.save(&p).map(|_| ()),
+        Subject::Inc(d) => d.save(&p).map(|_| ()),
+    });
+    let out = match r {
+        Ok(Ok(())) => Ok(std::fs::read(&p).map_err(|e| format!("reading back the scratch file: {}", e))?),
+        Ok(Err(e)) => Err(format!("save(path) failed: {}", e)),
+        Err(pn) => Err(format!("save(path) panicked: {}", pn)),
+    };
+    let _ = std::fs::remove_file(&p);
+    Ok(out)
 }
 
 fn file_cases() -> Result<(), String> {
